@@ -62,7 +62,7 @@ impl C02 {
             Verdict::Fail(_) => "fail",
             other => {
                 if budget_exceeded(other) {
-                    sh.inconclusive(format!("reference solver budget exceeded ({cfg_txt})"));
+                    backend_trouble(sh, other, &cfg_txt);
                     return None;
                 }
                 let cause = no_verdict_cause(&run);
